@@ -13,22 +13,23 @@
    everything else) and EVERY schedule incl. cancellation. Kind G (all programs, all schedules): the chart task only ever holds
    chart frames, manager.run and the emission of the two pipeline events (C14_pipeline_events_come_from_the_chart_task), and
    after the run has ended nothing is emitted at all (C13_nothing_starts_after_run).
-   Kind F (ALL plain programs -- no switch / one-of / recurrent construct --, any number of event managers that do not raise,
-   suspending ones included, EVERY schedule incl. cancellation; theorems about the history [st_trace], below):
+   Kind G (ALL programs -- every construct, any bodies, any artifact store, any order oracles --, any number of event managers that
+   do not raise, suspending ones included, EVERY schedule incl. cancellation; theorems about the history [st_trace], below):
      - on_pipeline_start: at most once per manager, never with a node id, and BEFORE ANYTHING ELSE: every entry of the history
        other than the creation of the chart task and on_pipeline_start callbacks is preceded by the on_pipeline_start of every
-       manager (C14_on_plain_programs_pipeline_start_comes_first);
+       manager (C14_pipeline_start_comes_first);
      - on_pipeline_complete: at most once per manager; when run returns a PipelineResult, every manager has seen
        on_pipeline_start and on_pipeline_complete exactly once and every on_pipeline_complete carried exactly that value /
-       error (C14_on_plain_programs_pipeline_events); AFTER EVERYTHING ELSE: from the first on_pipeline_complete on, the history
-       grows by on_pipeline_complete callbacks only (C14_on_plain_programs_pipeline_complete_comes_last);
+       error (C14_pipeline_events); AFTER EVERYTHING ELSE: from the first on_pipeline_complete on, the history grows by
+       on_pipeline_complete callbacks only (C14_pipeline_complete_comes_last);
+     - on_node_start comes first for each node: every body invocation -- first attempt or retry, in any iteration of a recurrent
+       subgraph -- comes after every manager's on_node_start for that node (C14_node_start_comes_before_the_body).
+   Kind F (all PLAIN programs, same managers and schedules):
      - a node's value is never delivered before its successful on_node_complete: a result is stored only after every
        manager has been told on_node_complete(node, error=None), and a body is invoked only after every manager has seen the
-       successful on_node_complete of each of its inputs (C14_on_plain_programs_values_follow_node_complete);
-     - on_node_start comes first for each node: every body invocation, first attempt or retry, comes after every manager's
-       on_node_start for that node (C14_on_plain_programs_node_start_comes_before_the_body).
+       successful on_node_complete of each of its inputs (C14_on_plain_programs_values_follow_node_complete).
    Decided on the implementation only (oracle on the merged event / body trace, every run): the identity of the PipelineResult
-   object, the exact order start -> (complete(err))* -> final complete within one execution, and everything above on
+   object, the exact order start -> (complete(err))* -> final complete within one execution, and value-after-complete on
    programs that are not plain. *)
 From MLPE Require Import Engine.Run Spec.Dataflow Proofs.ExecLemmas Proofs.Evolve Proofs.StackInv Proofs.CancelProofs
      Explore.StateEq Explore.Erase Explore.Explorer Explore.Safe Catalogue.Programs Catalogue.Certified Proofs.CertLemmas.
@@ -64,8 +65,9 @@ Example C14_premises_satisfiable :
 Proof. vm_compute. repeat split; reflexivity. Qed.
 
 
-(* ---- kind F: all plain programs, all schedules, non-raising managers ---------------------------------------------------- *)
-From MLPE Require Import Proofs.PlainWorld Proofs.PlainLive Proofs.PlainCore Proofs.PlainDeadlock Proofs.PlainEvents Proofs.PlainNodeStart Proofs.PlainPipe Proofs.PlainQuiet.
+(* ---- kind G (all programs) and kind F (all plain programs), all schedules, non-raising managers ---------------------------- *)
+From MLPE Require Import Proofs.PlainWorld Proofs.PlainLive Proofs.PlainCore Proofs.PlainDeadlock Proofs.PlainEvents Proofs.PlainNodeStart Proofs.PlainPipe Proofs.PlainQuiet
+     Proofs.PipeAll Proofs.QuietAll Proofs.NodeStartAll.
 
 Definition managers_do_not_raise (P : prog) : Prop := forall m ev n k, p_mgr_fault P m ev n k = false.
 
@@ -89,17 +91,17 @@ Print Assumptions C14_on_plain_programs_values_follow_node_complete.
 
 (* [start_ev m n] = on_node_start(n) seen by manager m: every body invocation of a node -- first attempt or retry -- comes after
    every manager's on_node_start for that node *)
-Theorem C14_on_plain_programs_node_start_comes_before_the_body :
-  forall P, plain_prog P -> managers_do_not_raise P ->
+Theorem C14_node_start_comes_before_the_body :
+  forall P, managers_do_not_raise P ->
   forall st, reachable P st ->
     forall a b i k kw, st_trace st = a ++ OStart i k kw :: b ->
       exists nd, real_index nd = i /\ forall m, m < p_mgrs P -> In (start_ev m nd) b.
-Proof. exact plain_bodies_start_after_node_start. Qed.
-Print Assumptions C14_on_plain_programs_node_start_comes_before_the_body.
+Proof. exact bodies_start_after_node_start_all_programs. Qed.
+Print Assumptions C14_node_start_comes_before_the_body.
 
 (* [cnt (is_ps m)] / [cnt (is_pc m)] count the on_pipeline_start / on_pipeline_complete callbacks of manager m in the history *)
-Theorem C14_on_plain_programs_pipeline_events :
-  forall P, plain_prog P -> managers_do_not_raise P ->
+Theorem C14_pipeline_events :
+  forall P, managers_do_not_raise P ->
   forall st, reachable P st ->
     (forall m, cnt (is_ps m) (st_trace st) <= 1) /\ (forall m, cnt (is_pc m) (st_trace st) <= 1) /\
     (forall m n e r, In (OEmit m EvPipelineStart n e r) (st_trace st) -> n = None /\ e = None /\ r = None) /\
@@ -110,24 +112,24 @@ Theorem C14_on_plain_programs_pipeline_events :
     (forall x, main_state st = Some (TDone (SResErr x)) ->
        (forall m, m < p_mgrs P -> cnt (is_ps m) (st_trace st) = 1 /\ cnt (is_pc m) (st_trace st) = 1) /\
        (forall m n e r, In (OEmit m EvPipelineComplete n e r) (st_trace st) -> e = Some x /\ r = None)).
-Proof. exact plain_pipeline_events. Qed.
-Print Assumptions C14_on_plain_programs_pipeline_events.
+Proof. exact pipeline_events_all_programs. Qed.
+Print Assumptions C14_pipeline_events.
 
 (* [early o]: o is the creation of the chart task or an on_pipeline_start callback *)
-Theorem C14_on_plain_programs_pipeline_start_comes_first :
-  forall P, plain_prog P -> managers_do_not_raise P ->
+Theorem C14_pipeline_start_comes_first :
+  forall P, managers_do_not_raise P ->
   forall st, reachable P st ->
     forall a o b, st_trace st = a ++ o :: b -> early o = false -> forall m, m < p_mgrs P -> cnt (is_ps m) b = 1.
-Proof. exact plain_pipeline_start_comes_first. Qed.
-Print Assumptions C14_on_plain_programs_pipeline_start_comes_first.
+Proof. exact pipeline_start_comes_first_all_programs. Qed.
+Print Assumptions C14_pipeline_start_comes_first.
 
 (* [is_pc_any o]: o is an on_pipeline_complete callback; a is what happened after o *)
-Theorem C14_on_plain_programs_pipeline_complete_comes_last :
-  forall P, plain_prog P -> managers_do_not_raise P ->
+Theorem C14_pipeline_complete_comes_last :
+  forall P, managers_do_not_raise P ->
   forall st, reachable P st ->
     forall a o b, st_trace st = a ++ o :: b -> is_pc_any o = true -> forallb is_pc_any a = true.
-Proof. exact plain_pipeline_complete_comes_last. Qed.
-Print Assumptions C14_on_plain_programs_pipeline_complete_comes_last.
+Proof. exact pipeline_complete_comes_last_all_programs. Qed.
+Print Assumptions C14_pipeline_complete_comes_last.
 
 (* the hypotheses are met by the rhombus with a suspending event manager, and a complete run of it shows every event in the
    history (so the conclusions above are about non-empty histories) *)
